@@ -27,6 +27,7 @@ const (
 	validatorRe = `^(validate|validate2|check|check2|check3|check4|Validate|norm)$`
 	sanitizerRe = `^sanitize$`
 	f5Key       = "F5:validator-condition-not-on-every-path"
+	c02aKey     = "C02a:validated-load-before-store"
 )
 
 func goEnv() []string {
@@ -101,9 +102,11 @@ type caseInfo struct {
 	nontriv   bool
 	dropped   int // real edges dropped by a validator condition
 	unjust    int // of those, F5-shaped: a genuine validator condition that is not on every path
+	viaMem    int // of those, justified only through "same data" of two loads (C02a)
 	unexpl    int // of those, not explained by the model at all (no condition of the edge is a validator check for it)
-	// class of the dropped edge source-call(site) -> sink-call(site) argument: "J" justified by must-pass,
-	// "F5" validator condition not on every path, "U" unexplained
+	// class of the dropped edge source-call(site) -> sink-call(site) argument: "J" justified by must-pass
+	// on the destination value itself, "M" justified only through the memory rules of ValuesWithSameData
+	// (C02a), "F5" validator condition not on every path, "U" unexplained
 	edgeClass map[[2]int]string
 	// sinks that have an F5-class dropped edge from a node that is not a source call (data that went
 	// through another call first, e.g. x1, _ = norm(x0))
@@ -172,6 +175,8 @@ func (ci *caseInfo) classify(e df.GraphNode, call ssa.CallInstruction, class str
 	switch class {
 	case "F5":
 		ci.unjust++
+	case "M":
+		ci.viaMem++
 	case "U":
 		ci.unexpl++
 	}
@@ -188,8 +193,9 @@ func (ci *caseInfo) classify(e df.GraphNode, call ssa.CallInstruction, class str
 				ci.edgeClass = map[[2]int]string{}
 			}
 			k := [2]int{s, t}
-			// the worst class wins: U > F5 > J
-			if old := ci.edgeClass[k]; old == "" || class == "U" || (class == "F5" && old == "J") {
+			// the worst class wins: U > F5 > M > J
+			rank := map[string]int{"": 0, "J": 1, "M": 2, "F5": 3, "U": 4}
+			if rank[class] > rank[ci.edgeClass[k]] {
 				ci.edgeClass[k] = class
 			}
 		}
@@ -287,7 +293,7 @@ func addEdgeQueries(bt *batch, rep *lib.Report, d *fdump, ts *config.TaintSpec, 
 			ctx: fmt.Sprintf("function %s\n%s\nedge %s -> %s\nreal conditions: %s\n", fn.String(), src, e.n.String(), e.dest.String(), realConds.String())}
 		q.on = func(got string) {
 			if !strings.HasPrefix(got, want+" J ") {
-				q.want = want + " J ?"
+				q.want = want + " J ? R ?"
 				m.report(q, got)
 				if realDrop {
 					// the real edge does not carry what the model of the unchanged code predicts:
@@ -299,9 +305,12 @@ func addEdgeQueries(bt *batch, rep *lib.Report, d *fdump, ts *config.TaintSpec, 
 			}
 			if realDrop {
 				// real conditions == model conditions: V3 = dropJustified on them
-				if strings.HasSuffix(got, " J 1") {
+				if strings.HasSuffix(got, " J 1 R 1") {
 					rep.Count("V3:dropped-edge-must-pass")
 					ci.classify(e.n, call, "J")
+				} else if strings.HasSuffix(got, " J 1 R 0") {
+					rep.Count("V3:dropped-edge-must-pass-only-via-memory-same-data(outside_proved_domain)")
+					ci.classify(e.n, call, "M")
 				} else {
 					rep.Count("V3:dropped-edge-NOT-must-pass(outside_proved_domain)")
 					ci.classify(e.n, call, "F5")
@@ -321,16 +330,20 @@ func runCases(rep *lib.Report) {
 	var cases []*caseInfo
 	var text strings.Builder
 	text.WriteString("package main\n")
-	// case0: the recorded F5 input (fixed corpus, evaluated first)
-	if c0 := corpusCase(rep); c0 != nil {
-		cases = append(cases, c0)
-		text.WriteString("\n" + c0.src)
-	} else {
-		cases = append(cases, &caseInfo{id: 0, src: "func case0() {}\n", sites: map[int]bool{}, gt: map[[2]int]bool{}, rept: map[[2]int]bool{}, condKinds: map[int]bool{}})
-		text.WriteString("\nfunc case0() {}\n")
+	// case0, case1: the recorded inputs of the known findings (fixed corpus, evaluated first)
+	corpusDirs := []string{"F05_validator_one_path", "C02a_validated_cell_overwritten"}
+	for i, dname := range corpusDirs {
+		if c0 := corpusCase(rep, dname, i); c0 != nil {
+			cases = append(cases, c0)
+			text.WriteString("\n" + c0.src)
+		} else {
+			src := fmt.Sprintf("func case%d() {}\n", i)
+			cases = append(cases, &caseInfo{id: i, src: src, sites: map[int]bool{}, gt: map[[2]int]bool{}, rept: map[[2]int]bool{}, condKinds: map[int]bool{}})
+			text.WriteString("\n" + src)
+		}
 	}
 	site := 100
-	for i := 1; i <= nCases; i++ {
+	for i := len(corpusDirs); i < len(corpusDirs)+nCases; i++ {
 		g := &caseGen{r: r, nextSite: &site}
 		before := site
 		s0 := g.site()
@@ -362,15 +375,15 @@ func runCases(rep *lib.Report) {
 	runProgram(rep, dir, "vcase", text.String(), cases, skelSrcs)
 }
 
-// corpusCase reads the recorded F5 input (a case function named case0 with sites < 100).
-func corpusCase(rep *lib.Report) *caseInfo {
-	src, err := os.ReadFile(filepath.Join(lib.Root(), "corpus", "findings", "F05_validator_one_path", "case.go.txt"))
+// corpusCase reads a recorded input (a case function named case<id> with sites < 100).
+func corpusCase(rep *lib.Report, dname string, id int) *caseInfo {
+	src, err := os.ReadFile(filepath.Join(lib.Root(), "corpus", "findings", dname, "case.go.txt"))
 	if err != nil {
-		rep.Notes = append(rep.Notes, "corpus F05 case file missing: "+err.Error())
+		rep.Notes = append(rep.Notes, "corpus case file missing: "+err.Error())
 		return nil
 	}
 	body := string(src)
-	ci := &caseInfo{id: 0, src: body, sites: map[int]bool{}, gt: map[[2]int]bool{}, rept: map[[2]int]bool{}, condKinds: map[int]bool{cVal: true}, nontriv: true}
+	ci := &caseInfo{id: id, src: body, sites: map[int]bool{}, gt: map[[2]int]bool{}, rept: map[[2]int]bool{}, condKinds: map[int]bool{cVal: true}, nontriv: true}
 	for _, m := range srcCallRe.FindAllStringSubmatch(body, -1) {
 		k, _ := strconv.Atoi(m[1])
 		ci.sites[k] = true
@@ -488,23 +501,25 @@ func runProgram(rep *lib.Report, dir, pkg, text string, cases []*caseInfo, skelS
 		if len(ci.rept) > len(ci.gt) {
 			rep.Count("case:reports-more-than-ground-truth(precision, not demanded)")
 		}
-		dom := ci.unjust == 0 && ci.unexpl == 0
+		dom := ci.unjust == 0 && ci.unexpl == 0 && ci.viaMem == 0
 		if dom {
 			inDomain++
 		} else {
 			outDomain++
 		}
-		var missed, missedF5 [][2]int
+		var missed, missedF5, missedMem [][2]int
 		for k := range ci.gt {
 			if !ci.rept[k] {
 				if cl, direct := ci.edgeClass[k]; cl == "F5" || (!direct && ci.indirectF5[k[1]]) {
 					missedF5 = append(missedF5, k)
+				} else if cl == "M" {
+					missedMem = append(missedMem, k)
 				} else {
 					missed = append(missed, k)
 				}
 			}
 		}
-		if len(missed)+len(missedF5) == 0 {
+		if len(missed)+len(missedF5)+len(missedMem) == 0 {
 			continue
 		}
 		less := func(l [][2]int) func(i, j int) bool {
@@ -512,10 +527,15 @@ func runProgram(rep *lib.Report, dir, pkg, text string, cases []*caseInfo, skelS
 		}
 		sort.Slice(missed, less(missed))
 		sort.Slice(missedF5, less(missedF5))
-		content := fmt.Sprintf("%s\nmissed (source site, sink site): %v\nmissed through an edge whose validator condition is not on every path (F5): %v\nground truth: %v\nreported: %v\nvalidator-dropped edges: %d (not on every path: %d, unexplained by the model: %d); classes %v\nconfig: sources ^source$, sinks ^sink$, sanitizers %s, validators %s\nsupport code: nativeSupport / stubSupport in harness/cmd/c02/gen.go (the whole program is in %s)\n",
-			ci.src, missed, missedF5, keys2(ci.gt), keys2(ci.rept), ci.dropped, ci.unjust, ci.unexpl, ci.edgeClass, sanitizerRe, validatorRe, dir)
+		sort.Slice(missedMem, less(missedMem))
+		content := fmt.Sprintf("%s\nmissed (source site, sink site): %v\nmissed through an edge validated only via two loads of one pointer (C02a): %v\nmissed through an edge whose validator condition is not on every path (F5): %v\nground truth: %v\nreported: %v\nvalidator-dropped edges: %d (not on every path: %d, unexplained by the model: %d); classes %v\nconfig: sources ^source$, sinks ^sink$, sanitizers %s, validators %s\nsupport code: nativeSupport / stubSupport in harness/cmd/c02/gen.go (the whole program is in %s)\n",
+			ci.src, missed, missedMem, missedF5, keys2(ci.gt), keys2(ci.rept), ci.dropped, ci.unjust, ci.unexpl, ci.edgeClass, sanitizerRe, validatorRe, dir)
 		if len(missed) > 0 {
 			rep.Fail("e2e-miss:"+ci.src, fmt.Sprintf("a native execution delivers unvalidated, unsanitized source data to a sink (source site, sink site)=%v and the taint analysis does not report it; the flow is not explained by a validator condition that fails must-pass", missed[0]), []byte(content), false)
+		}
+		if len(missedMem) > 0 {
+			missesOut++
+			rep.Fail(c02aKey, "flow dropped because a validator accepted an earlier load of a memory cell that was overwritten with source data before the sink", []byte(content), false)
 		}
 		if len(missedF5) > 0 {
 			missesOut++
